@@ -120,8 +120,24 @@ func mustOpen(o Options) *DB {
 
 // inBubble runs f in a fresh synctest bubble (own virtual clock).
 func inBubble(t *testing.T, f func()) {
+	defer func() {
+		if r := recover(); r != nil {
+			// A failed Open leaks badger goroutines (watermarks, size/cache monitors); the bubble
+			// then reports them when its root exits.  The body's own result has been recorded
+			// already, so this particular panic is tolerated; the goroutines stay blocked forever.
+			if bubbleLeakOK && strings.Contains(fmt.Sprint(r), "blocked goroutines remain") {
+				bubbleLeakOK = false
+				return
+			}
+			panic(r)
+		}
+	}()
+	bubbleLeakOK = false
 	synctest.Test(t, func(t *testing.T) { f() })
 }
+
+// bubbleLeakOK is set by a bubble body that knowingly leaves blocked goroutines behind.
+var bubbleLeakOK bool
 
 // ---------------------------------------------------------------------------------------
 // generic sched-scenario runner
@@ -173,7 +189,13 @@ func (sc *schedScenario) runOne(t *testing.T, j *vlib.Job, prefix []int) *sched.
 				}
 			}
 		}
-		y.VerifPointFn = s.Point
+		y.VerifPointFn = func(name string) {
+			if name == "commit.ts" {
+				// runs under writeChLock right after the conflict check: event order = check order
+				s.Log("check tid=%d", s.Tid())
+			}
+			s.Point(name)
+		}
 		s.Run(sc.threads(x))
 		y.VerifPointFn = nil
 		switch {
@@ -275,7 +297,54 @@ func (sc *schedScenario) explore(t *testing.T, j *vlib.Job, r *vlib.Result) {
 }
 
 func registerSched(sc *schedScenario) {
-	register(sc.name, func(t *testing.T, j *vlib.Job, r *vlib.Result) { sc.explore(t, j, r) })
+	register(sc.name, func(t *testing.T, j *vlib.Job, r *vlib.Result) {
+		n := j.Int("cases", 0)
+		if n == 0 || (len(j.Replay) > 0 && string(j.Replay) != "null") {
+			if len(j.Replay) > 0 && string(j.Replay) != "null" {
+				var rp struct {
+					Case *int `json:"case"`
+				}
+				if json.Unmarshal(j.Replay, &rp) == nil && rp.Case != nil {
+					if j.Params == nil {
+						j.Params = map[string]any{}
+					}
+					j.Params["case"] = *rp.Case
+				}
+			}
+			sc.explore(t, j, r)
+			return
+		}
+		// a family of small scenarios: case c belongs to shard c % NShard and is explored whole
+		shard, nshard := j.Shard, j.NShard
+		j.Shard, j.NShard = 0, 1
+		if j.Params == nil {
+			j.Params = map[string]any{}
+		}
+		deadline := j.Deadline(time.Now())
+		for c := 0; c < n; c++ {
+			if c%nshard != shard {
+				continue
+			}
+			if !deadline.IsZero() && time.Now().After(deadline) {
+				r.Capped, r.CapReason = true, "deadline"
+				break
+			}
+			j.Params["case"] = c
+			before := len(r.Violations)
+			sc.explore(t, j, r)
+			for i := before; i < len(r.Violations); i++ {
+				// make the replay self-contained
+				var m map[string]any
+				_ = json.Unmarshal(r.Violations[i].Replay, &m)
+				m["case"] = c
+				r.Violations[i].Replay, _ = json.Marshal(m)
+			}
+			if len(r.Violations) > before {
+				break
+			}
+		}
+		j.Shard, j.NShard = shard, nshard
+	})
 }
 
 // ---------------------------------------------------------------------------------------
